@@ -432,7 +432,8 @@ PANIC_METHODS = {
 CONST_ARG_METHODS = {"windows": (1, None), "chunks": (1, None), "chunks_exact": (1, None), "rchunks": (1, None), "step_by": (1, None),
                      "from_str_radix": (2, 36), "to_string_radix": (2, 36)}
 ALLOC_METHODS = {"with_capacity": 0, "from_elem": 1, "reserve": 1, "reserve_exact": 1, "resize": 1, "with_capacity_and_hasher": 0,
-                 "repeat": 1, "try_reserve": 1, "with_capacity_in": 0, "from_elem_in": 1}
+                 "repeat": 1, "try_reserve": 1, "try_reserve_exact": 1, "with_capacity_in": 0, "from_elem_in": 1, "try_with_capacity": 0,
+                 "resize_with": 1, "extend_from_within": 1}
 
 
 def classify_callee(path):
